@@ -87,6 +87,7 @@ func RunC20(c *engine.Ctx) {
 	}
 	c.Selftest("seam_vfs", "true")
 	syscallBinding(c)
+	concurrentStoresCrash(c)
 	for _, h := range crashHistories(c.Thorough()) {
 		h := h
 		c.Group(h.Name)
